@@ -23,7 +23,7 @@ func init() {
 			"nonce, value/payload, destination, attached function and attached arguments — extracted as linear forms a·i + b·n + c over loop index and decoded count — equal those the parser binds to ESDTTokenName, ESDTTokenNonce, ESDTValue, RcvAddr, CallFunction " +
 			"and CallArgs. R4: the destination-side guards accept what the sender side emits (emitted argument count as a linear form versus the pre-guard). Does NOT decide: numeric equality of parsed values and ledger diffs; function names containing '@'.",
 		Trusted: []string{"hex.EncodeToString / hex.DecodeString are inverse", "A-protomsg"},
-		Rules:   []func(*Ctx){c10r1, c10r3, c10r4},
+		Rules:   []func(*Ctx){c10r1, c10r3, c10r4, c10r5},
 	})
 }
 
@@ -814,6 +814,96 @@ func c10r4(c *Ctx) {
 		if o.Rule == "C12-R3" && (strings.HasPrefix(o.Construct, "strings.Split") || strings.HasPrefix(o.Construct, "hex.DecodeString")) || o.Rule == "C01-R3" {
 			o.Rule = "C10-R4"
 			c.add(o)
+		}
+	}
+}
+
+
+// c10r5: the destination side of the two single transfers rejects a message only for its shape (argument count), a failing
+// dependency or the state of the destination — never for the *content* of an argument: the sender side forwards the
+// caller's raw argument bytes, so a content test that the sender side does not make (e.g. "the quantity bytes equal the
+// canonical encoding of the payload's value") makes the destination refuse what the sender shard debited and emitted.
+func c10r5(c *Ctx) {
+	const rule = "C10-R5"
+	c.Rule(rule, "destination side: no rejection decided by the content of a forwarded argument", 2)
+	regs := c.P.RegByName()
+	for _, name := range []string{"ESDTTransfer", "ESDTNFTTransfer"} {
+		r, ok := regs[name]
+		if !ok || r.Entry == nil {
+			c.Anchor(rule, "registration of "+name)
+			continue
+		}
+		x, _ := entryContext(r.Entry)
+		argsT := x.in + ".VMInput.Arguments["
+		contentOf := func(f Fact) string {
+			if strings.HasPrefix(f.Atom, "ok:") || strings.HasPrefix(f.Atom, "or{") {
+				return "" // a failing call (decode, dependency) is a legitimate reason
+			}
+			k := f.Key()
+			// argument content: "**IN.VMInput.Arguments[k]" outside of len(…)
+			i := strings.Index(k, "*"+argsT)
+			for i >= 0 {
+				pre := k[:i]
+				if !strings.HasSuffix(strings.TrimRight(pre, "*"), "len(") {
+					return k
+				}
+				j := strings.Index(k[i+1:], "*"+argsT)
+				if j < 0 {
+					break
+				}
+				i += 1 + j
+			}
+			return ""
+		}
+		var bad []string
+		nexits := 0
+		var walk func(e *Env, destOnly bool, depth int)
+		walk = func(e *Env, destOnly bool, depth int) {
+			nilSnd := func(f Fact) bool { return !f.Lin && f.Pos && f.Atom == nilAtom(x.snd) }
+			for _, ret := range returnsOf(e.Fn) {
+				if !lastIsError(e.Fn) || isSuccessReturn(ret) && !(len(ret.Results) > 0 && errCallOf(retval(ret, len(ret.Results)-1)) != nil) {
+					continue
+				}
+				if destOnly {
+					if _, onDest := e.CutAt(ret, nilSnd, nil); !onDest {
+						continue
+					}
+				}
+				rv := retval(ret, len(ret.Results)-1)
+				if !definitelyError(rv, ret.Block(), map[ssa.Value]bool{}) {
+					continue
+				}
+				nexits++
+				// propagated from a module helper that is handed argument content: look inside
+				if call := errCallOf(rv); call != nil {
+					if sc := call.Call.StaticCallee(); sc != nil && len(sc.Blocks) > 0 && c.P.InPkgs(sc, "builtInFunctions") && depth < 2 && !reachesInvoke(c.P, sc, "AccountDataHandler.SaveKeyValue", 0) && !reachesInvoke(c.P, sc, "AccountDataHandler.RetrieveValue", 0) {
+						walk(e.Sub(call, sc), false, depth+1)
+					}
+					continue
+				}
+				// the branch that decided this exit
+				blk := ret.Block()
+				for _, pb := range blk.Preds {
+					for _, f := range e.EdgeFacts()[edge{pb, blk}] {
+						if k := contentOf(f); k != "" {
+							bad = append(bad, fmt.Sprintf("%s at %s decided by %s", e.Fn.Name(), c.P.InstrPos(ret), k))
+						}
+					}
+				}
+			}
+		}
+		walk(c.P.Env(r.Entry), true, 0)
+		construct := name + ": destination-side rejections"
+		if nexits == 0 {
+			c.Fail(rule, "anchor", FuncName(r.Entry), construct, c.P.Pos(r.Entry.Pos()), "no error exit found on the destination side")
+			continue
+		}
+		if len(bad) == 0 {
+			c.OK(rule, FuncName(r.Entry), construct, c.P.Pos(r.Entry.Pos()), fmt.Sprintf("%d error exits; none is decided by argument content", nexits))
+		} else {
+			c.FailX(Oblig{Rule: rule, Func: FuncName(r.Entry), Construct: construct, Pos: c.P.Pos(r.Entry.Pos()), Kind: "violation",
+				Detail:   "the destination side can refuse a message because of the bytes of an argument that the sender side forwards as given: " + strings.Join(uniq(bad), " ; ") + ". The sender shard has already debited the tokens; the continuation is rejected by the function of the same name",
+				Expected: "destination-side rejections depend on the argument count, on failing calls and on the destination's state only"})
 		}
 	}
 }
